@@ -155,10 +155,13 @@ def check(case):
             a, b = p1 * (pf[0] - pp[0]), p2 * (pf[1] - pp[1])
             return a / (a + b)
 
-        h = 1e-6
+        # Lipschitz estimate at the SCALE of the stopping tolerance (the map can be steep over 1e-5 and flat over 1e-6
+        # near equilibrium: thorough-tier false alarm, DESIGN section 12); undecidable closer than h to an end point
+        h = max(1e-6, 2 * case["precision"], 2 * d_last)
         lip = math.inf
         if mode != "vacuum" and h < y_last < 1 - h:
-            lip = abs(gmap(y_last + h) - gmap(y_last - h)) / (2 * h)
+            lip = max(abs(gmap(y_last + h) - gmap(y_last - h)) / (2 * h), abs(gmap(y_last + h) - gmap(y_last)) / h,
+                      abs(gmap(y_last) - gmap(y_last - h)) / h)
         # locally contractive: non-increasing steps along the trace AND finite-difference Lipschitz estimate < 0.9
         contractive = all(ds[k + 1] <= ds[k] for k in range(len(ds) - 1)) and lip < 0.9
         if contractive:
@@ -174,7 +177,7 @@ def check(case):
     # (4) black-box self-consistency, permeate-temperature mode, when the reference map is locally contractive
     if mode == "temperature":
         yj = _comp(j)
-        h = 1e-6
+        h = max(1e-6, 2 * case["precision"])
 
         def g(y):
             pp = _perm_pp(mix, case, y)[0]
@@ -183,7 +186,7 @@ def check(case):
 
         if h < yj < 1 - h:
             gy = g(yj)
-            lip = abs(g(yj + h) - g(yj - h)) / (2 * h)
+            lip = max(abs(g(yj + h) - g(yj - h)) / (2 * h), abs(g(yj + h) - gy) / h, abs(gy - g(yj - h)) / h)
             if math.isfinite(lip) and lip < 0.9 and math.isfinite(gy) and (contractive or not traced):
                 require(abs(gy - yj) < case["precision"],
                         "black box: permeate composition %r of the returned fluxes is not a fixed point of the driving-force map "
